@@ -1145,6 +1145,11 @@ func main() {
 	if focus == "C05" {
 		nslow, nnest = r.N(12, 120), r.N(16, 400)
 	}
+	nwild := 0
+	if focus == "C05" {
+		nwild = r.N(48, 480)
+	}
+	vh.Parallel(nwild, 16, func(i int) { wildListing(r, i) })
 	vh.Parallel(n+ns+nslow+nnest, 16, func(i int) {
 		switch {
 		case i < n:
